@@ -17,12 +17,22 @@ def parseEv (s : String) : Option Ev :=
   | ["r"] => some .reset
   | _ => none
 
-/-- `w@<now>@<ev>+<ev>…`, `w@<now>@-` for a wake-up with nothing new -/
+/-- one token of a history: an event, or `R:<n>:<code0>:<cstep>:<reg0>:<ts0>` = a run of `n` frames
+    (`repEvs`: frame `i` has code `(code0 + i·cstep) mod 2¹⁶`, register `(reg0 + i) mod 256`, time `ts0 + i`) -/
+def parseTok (s : String) : Option (List Ev) :=
+  match s.splitOn ":" with
+  | ["R", n, c0, cs, r0, t0] => do
+      pure (repEvs (← parseNat n) (← parseNat c0) (← parseNat cs) (← parseNat r0) (← parseNat t0))
+  | _ => (parseEv s).map ([·])
+
+def parseEvs (l : List String) : Option (List Ev) := (l.mapM parseTok).map List.flatten
+
+/-- `w@<now>@<tok>+<tok>…`, `w@<now>@-` for a wake-up with nothing new -/
 def parseWake (s : String) : Option Wake :=
   match s.splitOn "@" with
   | ["w", now, evs] => do
       let n ← parseNat now
-      let l ← if evs = "-" then some [] else (evs.splitOn "+").mapM parseEv
+      let l ← if evs = "-" then some [] else parseEvs (evs.splitOn "+")
       pure ⟨n, l⟩
   | _ => none
 
@@ -48,10 +58,47 @@ def showHist (nid : Nat) (evs : List Ev) : String :=
   s!"inv={showList (inv.map fun (k, e) => s!"{k}@{showEntry e}")};" ++
   s!"raised={showNatList raised};alen={showNatList (activeLens nid Consumer.init evs)}"
 
+/-! digests for histories too long to print: `h ← (h·P + x + 1) mod (2⁶¹ − 1)` over the items -/
+def digM : Nat := 2305843009213693951
+def digP : Nat := 1000003
+def digest (l : List Nat) : Nat := l.foldl (fun h x => (h * digP + x + 1) % digM) 0
+
+def entryNum (e : Entry) : Nat :=
+  ((e.timestamp * 1099511627776 + leVal e.data) * 256 + e.register) * 65536 + e.code
+
+def showEnds (l : List Entry) : String :=
+  s!"{showEntries (l.take 2)}..{showEntries (l.drop (l.length - 2))}"
+
+/-- the same observations as `showHist`, digested; computed by the linear runner `runFast`
+    (equal to `run` / `trace` / `activeLens` by `Canopen.C16.runFast_spec`) -/
+def showLong (nid : Nat) (evs : List Ev) : String :=
+  let s := runFast nid (Fast.ofConsumer Consumer.init) evs
+  let log := s.rlog.reverse
+  let act := s.ractive.reverse
+  let inv := s.rinv.reverse
+  s!"n={log.length};logd={digest (log.map entryNum)};lends={showEnds log};" ++
+  s!"an={act.length};actd={digest (act.map entryNum)};aends={showEnds act};" ++
+  s!"invn={inv.length};invd={digest (inv.map fun (k, e) => entryNum e * 4294967296 + k)};" ++
+  s!"raised={s.nraised};alend={digest s.ralens.reverse}"
+
+/-- state after a (possibly very long) pre-history -/
+def after (nid : Nat) (pre : List Ev) : Consumer :=
+  (runFast nid (Fast.ofConsumer Consumer.init) pre).consumer
+
 def showRes : WaitRes → String
   | .nothing => "none"
   | .entry e => showEntry e
   | .raised => "raised"
+
+def showWRes : Option WaitRes → String
+  | some r => showRes r
+  | none => "blocked"
+
+/-- `<filter>~<timeout>` -/
+def parseSpec (s : String) : Option (Option Nat × Nat) :=
+  match s.splitOn "~" with
+  | [f, t] => do pure (← parseFilter f, ← parseNat t)
+  | _ => none
 
 def splitAtSlash (l : List String) : List String × List String :=
   (l.takeWhile (· ≠ "/"), (l.dropWhile (· ≠ "/")).drop 1)
@@ -60,28 +107,43 @@ def showFrame : Option Bytes → Nat → String
   | some f, cob => s!"ok {cob}:{toHex f}"
   | none, _ => "err"
 
-/-- ops: `hist nid ev…`, `wait nid filter timeout t0 pre… / wake…`, `waitrt nid filter realTimeoutMs pre… / wake…`,
+/-- ops: `long nid tok…` (digested history), `mwait nid t0 f~timeout|f~timeout… pre… / wake…` (several threads in
+    `wait`, real condition variable), `hist nid ev…`, `wait nid filter timeout t0 pre… / wake…`, `waitrt nid filter realTimeoutMs pre… / wake…`,
     `send nid code reg hex`, `preset nid reg hex`, `pc lnid rnid ts0 call…`, `desc code` -/
 def step (args : List String) : String :=
   match args with
   | "hist" :: nid :: evs =>
-    match parseNat nid, evs.mapM parseEv with
+    match parseNat nid, parseEvs evs with
     | some nid, some evs => showHist nid evs
     | _, _ => "bad-op"
+  | "long" :: nid :: evs =>
+    match parseNat nid, parseEvs evs with
+    | some nid, some evs => showLong nid evs
+    | _, _ => "bad-op"
+  | "mwait" :: nid :: t0 :: specs :: rest =>
+    let (pre, wakes) := splitAtSlash rest
+    match parseNat nid, parseNat t0, (specs.splitOn "|").mapM parseSpec, parseEvs pre,
+          wakes.mapM parseWake with
+    | some nid, some t0, some specs, some pre, some wakes =>
+      let c := after nid pre
+      let ws := enterAll c (specs.map fun (f, tmo) => (f, t0 + tmo))
+      let r := sysRun nid (c, ws) (rigSchedule nid (List.range specs.length) wakes (t0 + 1000000000))
+      s!"res={String.intercalate "|" (r.2.map (showWRes ·.res))};log={r.1.log.length}"
+    | _, _, _, _, _ => "bad-op"
   | "wait" :: nid :: filter :: timeout :: t0 :: rest =>
     let (pre, wakes) := splitAtSlash rest
-    match parseNat nid, parseFilter filter, parseNat timeout, parseNat t0, pre.mapM parseEv,
+    match parseNat nid, parseFilter filter, parseNat timeout, parseNat t0, parseEvs pre,
           wakes.mapM parseWake with
     | some nid, some filter, some timeout, some t0, some pre, some wakes =>
-      let c := run nid Consumer.init pre
+      let c := after nid pre
       let r := wait nid filter t0 timeout c wakes
       s!"res={showRes r.res};waits={r.waits};log={r.state.log.length}"
     | _, _, _, _, _, _ => "bad-op"
   | "waitrt" :: nid :: filter :: realMs :: rest =>
     let (pre, wakes) := splitAtSlash rest
-    match parseNat nid, parseFilter filter, parseNat realMs, pre.mapM parseEv, wakes.mapM parseWake with
+    match parseNat nid, parseFilter filter, parseNat realMs, parseEvs pre, wakes.mapM parseWake with
     | some nid, some filter, some _, some pre, some wakes =>
-      let c := run nid Consumer.init pre
+      let c := after nid pre
       let r := wait nid filter 0 0 c wakes
       -- every scripted batch is delivered whatever the waiter does
       let final := run nid c (wakes.flatMap (·.evs))
